@@ -1,5 +1,6 @@
 import IncanModel.Syntax.Ladder
 import IncanModel.Driver.Util
+import IncanModel.Syntax.Literals
 namespace Incan.Driver
 open Incan.Ladder
 
@@ -107,6 +108,28 @@ def handleC08 : List String → String
       | some (e', []) => if e' = e then "same" else "differs"
       | _ => "differs")
     | _ => "bad-op")
+  | ["fmtstr", v] =>
+    (match parseStr v with
+    | some cs => showStr (Incan.Literals.fmtStr cs)
+    | none => "bad-op")
+  | ["scanstr", t] =>
+    (match parseStr t with
+    | some cs => (match Incan.Literals.lexStr cs with
+      -- the harness lexes the whole line: a quote left over after the literal opens a second literal that the
+      -- end of the line leaves unterminated
+      | some (v, rest) => if rest.contains '"' then "error" else s!"ok {showStr v} {rest.length}"
+      | none => "error")
+    | none => "bad-op")
+  | ["fmtbytes", v] =>
+    (match parseStr v with
+    | some cs => showStr ((Incan.Literals.fmtBytes (cs.map Char.toNat)).map Char.ofNat)
+    | none => "bad-op")
+  | ["scanbytes", t] =>
+    (match parseStr t with
+    | some cs => (match Incan.Literals.scanBytes (cs.map Char.toNat) with
+      | some (v, rest) => if rest.contains 34 then "error" else s!"ok {showStr (v.map Char.ofNat)} {rest.length}"
+      | none => "error")
+    | none => "bad-op")
   | _ => "bad-op"
 
 end Incan.Driver
